@@ -2,9 +2,9 @@
 META = {
     "C16": {
         "level": "exploration",
-        "level_text": "every conversion result on ~4e5 (quick) / ~5e6 (thorough) generated points, incl. an exhaustive small grid and all boundary families, equals an unbounded-integer reference; held-on-what-was-explored, not a proof",
+        "level_text": "every conversion result on ~4e5 (quick) / ~5e6 (thorough) generated points, incl. an exhaustive small grid and all boundary families, equals an unbounded-integer reference; held-on-what-was-explored, not a proof; the round ticker (fake clock with jumps) and the HTTP layer's schedule headers are monitored against the same arithmetic",
         "level_note": "trusts math/big and the generator's boundary families; sub-second periods excluded (cannot be produced by the system)",
-        "technique": "runtime oracle: real functions vs math/big reference model on generated + boundary-directed inputs",
+        "technique": "runtime oracle: real functions vs math/big reference model on generated + boundary-directed inputs; online monitor of the ticker's announced (round, time) pairs and of HTTP schedule headers",
     },
 }
 META["C18"] = {
